@@ -444,19 +444,30 @@ impl FromBitStream for TrackCDDA {
         r.skip(6 + 13 * 8)?;
         let index_point_count = r.read_to::<u8>()?;
 
+        // IndexVec guarantees at least 1 index point
+        // Contiguous guarantees there's no more than MAX index points
+        // and that they're all in order
+        let index_points: IndexVec<100, CDDAOffset> = IndexVec::try_from(
+            Contiguous::try_collect((0..index_point_count).map(|_| r.parse()))
+                .map_err(|_| Error::from(CuesheetError::IndexPointsOutOfSequence))??,
+        )?;
+
+        // absolute index positions (track offset + index offset)
+        // must be representable
+        if u64::from(offset)
+            .checked_add(u64::from(*index_points.last()))
+            .is_none()
+        {
+            return Err(CuesheetError::InvalidIndexPoint.into());
+        }
+
         Ok(Self {
             offset,
             number,
             isrc,
             non_audio,
             pre_emphasis,
-            // IndexVec guarantees at least 1 index point
-            // Contiguous guarantees there's no more than MAX index points
-            // and that they're all in order
-            index_points: IndexVec::try_from(
-                Contiguous::try_collect((0..index_point_count).map(|_| r.parse()))
-                    .map_err(|_| Error::from(CuesheetError::IndexPointsOutOfSequence))??,
-            )?,
+            index_points,
         })
     }
 }
@@ -486,7 +497,7 @@ impl FromBitStream for TrackNonCDDA {
     type Error = Error;
 
     fn from_reader<R: BitRead + ?Sized>(r: &mut R) -> Result<Self, Self::Error> {
-        let offset = r.read_to()?;
+        let offset: u64 = r.read_to()?;
         let number = r
             .read_to()
             .map_err(Error::Io)
@@ -497,19 +508,30 @@ impl FromBitStream for TrackNonCDDA {
         r.skip(6 + 13 * 8)?;
         let index_point_count = r.read_to::<u8>()?;
 
+        // IndexVec guarantees at least 1 index point
+        // Contiguous guarantees there's no more than MAX index points
+        // and that they're all in order
+        let index_points: IndexVec<256, u64> = IndexVec::try_from(
+            Contiguous::try_collect((0..index_point_count).map(|_| r.parse()))
+                .map_err(|_| Error::from(CuesheetError::IndexPointsOutOfSequence))??,
+        )?;
+
+        // absolute index positions (track offset + index offset)
+        // must be representable
+        if offset
+            .checked_add(*index_points.last())
+            .is_none()
+        {
+            return Err(CuesheetError::InvalidIndexPoint.into());
+        }
+
         Ok(Self {
             offset,
             number,
             isrc,
             non_audio,
             pre_emphasis,
-            // IndexVec guarantees at least 1 index point
-            // Contiguous guarantees there's no more than MAX index points
-            // and that they're all in order
-            index_points: IndexVec::try_from(
-                Contiguous::try_collect((0..index_point_count).map(|_| r.parse()))
-                    .map_err(|_| Error::from(CuesheetError::IndexPointsOutOfSequence))??,
-            )?,
+            index_points,
         })
     }
 }
